@@ -180,6 +180,11 @@ def rangesJudge (old new : List TSRange) (e : TSInputEdit) : Option Nat :=
       if r.start_byte ≤ r.end_byte ∧ r.end_byte < 4294967295 ∧ e.new_end_byte + r.end_byte < 4294967296 ∧
          e.start_byte ≤ e.old_end_byte ∧
          (n.end_byte ≠ movedByte r.end_byte e ∨ n.start_byte ≠ movedByte r.start_byte e) then some i
+      -- an OPEN end (`UINT32_MAX`, "to the end of the document") stays open with its end point, and the
+      -- start of such a range moves like any other position
+      else if r.end_byte = 4294967295 ∧ e.start_byte ≤ e.old_end_byte ∧ e.old_end_byte < 4294967296 ∧
+         e.new_end_byte + r.start_byte < 4294967296 ∧
+         (n.end_byte ≠ 4294967295 ∨ n.end_point ≠ r.end_point ∨ n.start_byte ≠ movedByte r.start_byte e) then some i
       else go rs ns (i + 1)
     | _, _, _ => none
   go old new 0
